@@ -303,25 +303,26 @@ Section Cmp.
 
     Lemma object_branch_n p k : k <> KLink -> object_branch cfg_fixed ieq (IObj p k fs) (IObj p k gs) = Ok true.
     Proof.
-      intro Hk. unfold object_branch. cbn [fields_of]. rewrite object_equals_n by exact Hk.
-      cbn [obind]. unfold as_kind.
+      intro Hk. unfold object_branch. cbn [fields_of].
+      assert (Hb : object_equals cfg_fixed ieq fs (IObj p k gs) = Ok true) by (apply object_equals_n; exact Hk).
+      unfold as_kind.
       assert (Et : typ (IObj p k gs) = typ (IObj p k fs)).
       { unfold typ. cbn [get_type]. rewrite (get_str_n fs gs Hf F_Type). reflexivity. }
       rewrite Et.
       destruct (tl_contains tl_ActivityTypes _).
-      { destruct (cast_ok KActivity k) eqn:E; [apply activity_equals_n; exact E|reflexivity]. }
+      { destruct (cast_ok KActivity k) eqn:E; [apply activity_equals_n; exact E|exact Hb]. }
       destruct (tl_contains tl_ActorTypes _).
-      { destruct (cast_ok KActor k) eqn:E; [apply actor_equals_n; exact E|reflexivity]. }
-      destruct (is_collection_m _); [|reflexivity].
+      { destruct (cast_ok KActor k) eqn:E; [apply actor_equals_n; exact E|exact Hb]. }
+      destruct (is_collection_m _); [|exact Hb].
       destruct (bytes_eqb _ _).
-      { destruct (cast_ok KCollection k) eqn:E; [apply collection_equals_n; exact E|reflexivity]. }
+      { destruct (cast_ok KCollection k) eqn:E; [apply collection_equals_n; exact E|exact Hb]. }
       destruct (bytes_eqb _ _).
-      { destruct (cast_ok KOrdered k) eqn:E; [apply ordered_equals_n; exact E|reflexivity]. }
+      { destruct (cast_ok KOrdered k) eqn:E; [apply ordered_equals_n; exact E|exact Hb]. }
       destruct (bytes_eqb _ _).
-      { destruct (cast_ok KCollectionPage k) eqn:E; [apply page_equals_n; exact E|reflexivity]. }
+      { destruct (cast_ok KCollectionPage k) eqn:E; [apply page_equals_n; exact E|exact Hb]. }
       destruct (bytes_eqb _ _).
-      { destruct (cast_ok KOrderedPage k) eqn:E; [apply opage_equals_n; exact E|reflexivity]. }
-      reflexivity.
+      { destruct (cast_ok KOrderedPage k) eqn:E; [apply opage_equals_n; exact E|exact Hb]. }
+      exact Hb.
     Qed.
   End TwoFields.
 End Cmp.
